@@ -7,7 +7,7 @@ package auth
 // stored credential is in a given format, and runs the real ValidatePassword on a sequence of
 // (user, password) steps, reporting the verdict and the class of every stored credential after each
 // step ("same" as seeded / a new "bcrypt" hash / "other").  At the end of a scenario the store is
-// re-opened from disk to see whether the credentials persisted.
+// opened a second time from disk (before the first service is closed) to see whether the credentials persisted.
 //
 // VERIF_IN : JSON [ {store, plaintext, users:[{name, fmt, pw(hex), perms}], steps:[{user(hex), pass(hex)}]} ]
 // VERIF_OUT: JSON [ {error, steps:[{ok, stored:{name: class}}], reopened:{name: class}} ]
@@ -170,15 +170,16 @@ func TestVerifC25(t *testing.T) {
 			o.Steps = append(o.Steps, c25StepOut{Ok: ok, Stored: c25Classes(svc, seeded)})
 		}
 
-		// what is on disk now?
-		_ = svc.Close()
-
+		// what is on disk now?  (looked at BEFORE closing the first service: Close would flush)
 		if again, err := c25Open(sc.Store, path); err == nil {
 			o.Reopened = c25Classes(again, seeded)
 			_ = again.Close()
 		} else {
 			o.Error += " reopen: " + err.Error()
 		}
+
+		AuthService = svc
+		_ = svc.Close()
 
 		outs = append(outs, o)
 	}
